@@ -359,7 +359,8 @@ TEXT["C16"] = {
              "is delivered and acknowledged to the broker under ANY pattern of lost PUBLISHes / PUBACKs of at most RetryCount rounds "
              "(exact traces; the bound is sharp); C16_qos2_completes_exactly_once_with_one_loss: a QoS 2 message with one lost "
              "datagram at any of the four positions completes on both sides with the handler run exactly once; "
-             "C16_register_step_survives_a_lost_regack (+ the other loss positions in ComposeLoss2.v). Arbitrary QoS 2 loss "
+             "C16_register_step_survives_a_lost_regack (+ the other loss positions in ComposeLoss2.v); "
+             "C16_sleep_survives_a_lost_disconnect_reply (a lost reply to the sleep DISCONNECT does not split the session). Arbitrary QoS 2 loss "
              "patterns and duplication are checked by the end-to-end monitor on "
              "the real client + real gateway joined by a lossy link, against the composed model.",
     "note": COMMON_NOTE + " Partial: liveness is proved for QoS 1 on short topics under any loss pattern within the budget, for QoS 2 and the REGISTER step with one lost datagram; longer QoS 2 loss patterns and duplication are tested (generated fault lists within and beyond the budget), not proved.",
